@@ -1197,6 +1197,20 @@ let match_bracket r =
       | [] -> BNoMatch
       | c::rest -> if (=) c ch_close then BNoGroup rest else BNoMatch))
 
+(** val sprefix : nat -> char list -> char list **)
+
+let rec sprefix n0 s =
+  match n0 with
+  | O -> []
+  | S k -> (match s with
+            | [] -> []
+            | c::r -> c::(sprefix k r))
+
+(** val matched_text : char list -> char list -> char list **)
+
+let matched_text r rest =
+  ch_open::(sprefix (sub (length0 r) (length0 rest)) r)
+
 (** val omap : ('a1 -> 'a2) -> 'a1 outcome -> 'a2 outcome **)
 
 let omap f = function
@@ -1291,11 +1305,19 @@ let rec rewrite_f has locate fuel s =
        if (=) c ch_open
        then (match match_bracket r with
              | BGroup (g, rest) ->
-               (match resolve_group has locate g with
-                | Ret t ->
-                  omap (fun u -> append t u) (rewrite_f has locate f rest)
-                | Raise e -> Raise e)
-             | BNoGroup _ -> Raise AttributeError
+               let m = matched_text r rest in
+               if negb (has_char ch_tick m)
+               then omap (fun u -> append m u) (rewrite_f has locate f rest)
+               else (match resolve_group has locate g with
+                     | Ret t ->
+                       omap (fun u -> append t u)
+                         (rewrite_f has locate f rest)
+                     | Raise e -> Raise e)
+             | BNoGroup rest ->
+               let m = matched_text r rest in
+               if negb (has_char ch_tick m)
+               then omap (fun u -> append m u) (rewrite_f has locate f rest)
+               else Raise AttributeError
              | BNoMatch -> omap (fun x -> c::x) (rewrite_f has locate f r))
        else omap (fun x -> c::x) (rewrite_f has locate f r))
 
